@@ -18,7 +18,8 @@ PROPS = {
     "C06": {"level": "exploration", "parts": [
         part("mapchoice", "stack", "TestVerifC06", variant="mapchoice"),
         part("plain", "stack", "TestVerifC06"),
-        part("history", "stack", "TestVerifC06History")]},
+        part("history", "stack", "TestVerifC06History"),
+        part("processes", "stack", "TestVerifC06Processes")]},
     "C07": {"level": "model_checking", "parts": [part("bfs", "stack", "TestVerifC07"), part("streams", "stack", "TestVerifC07")]},
     "C08": {"level": "exploration", "parts": [part("race", "stack", "TestVerifC08")]},
     "C09": {"level": "model_checking", "parts": [
